@@ -1319,10 +1319,19 @@ class RewriteAtQuery(NodeTransformer):
                         annotation=self.replacement_node.value,
                     )
 
-                if idx is not None and len(node.args.defaults) > idx:
+                if idx is not None:
+                    # `defaults` align with the END of `args` (and `_idx` skips a leading self/cls)
+                    default_idx = (
+                        idx
+                        + sum(1 for _arg in node.args.args if not hasattr(_arg, "_idx") or _arg._idx < 0)
+                        - (len(node.args.args) - len(node.args.defaults))
+                    )
                     new_default = get_value(self.replacement_node)
-                    if new_default not in none_types:
-                        node.args.defaults[idx] = new_default
+                    if (
+                        0 <= default_idx < len(node.args.defaults)
+                        and new_default not in none_types
+                    ):
+                        node.args.defaults[default_idx] = new_default
 
                 self.replacement_node = emit_arg(self.replacement_node)
             assert isinstance(
